@@ -647,6 +647,18 @@ func c02Find(c *Ctx, cs *C02Case, r *Rng, out *CaseOut, wantSig string) []c02Fai
 			sig := kind + "|" + dim + "|" + c02Construct(u)
 			if kind == "address-in-output" {
 				cls := addrClass(base, res)
+				if strings.HasSuffix(cls, "|bare-pointer") && !v.ex.CLI {
+					// The text may say "bare" only because later filters took away the brackets around
+					// the address. The experiment decides: if the divergence vanishes once the pointers
+					// inside maps, structs and nested slices are replaced by their pointees -- slices of
+					// pointers that are bindings themselves are left as they are -- the address came
+					// from inside a composite.
+					keepPtrSlices = true
+					if addressOnly(cs, x.cli, res.Key(), base.Key(), v.ex, false) {
+						cls = strings.TrimSuffix(cls, "bare-pointer") + "pointer-inside-fmt-composite"
+					}
+					keepPtrSlices = false
+				}
 				sig = kind + "|" + cls
 			}
 			if seen[sig] || (wantSig != "" && sig != wantSig) {
@@ -692,6 +704,10 @@ func sameSkeleton(a, b string) bool {
 
 // nestedPtrFree returns a copy of the case whose bindings have every pointer
 // below the top level replaced by its pointee (nil if there is none to replace).
+// keepPtrSlices: leave bindings that ARE slices of pointers alone (their elements print bare
+// when a filter walks them, which is the fixed join defect, not the known finding).
+var keepPtrSlices bool
+
 func nestedPtrFree(cs *C02Case) *C02Case {
 	c := *cs
 	c.Env = cloneEnv(cs.Env)
@@ -703,7 +719,7 @@ func nestedPtrFree(cs *C02Case) *C02Case {
 		if v.T == "struct" {
 			v.B = false
 		}
-		if v.R == "ptrs" { // a slice of pointers: its ELEMENTS are pointers below the top level
+		if v.R == "ptrs" && !keepPtrSlices { // a slice of pointers: its ELEMENTS are pointers below the top level
 			v.R = "typed"
 		}
 		if v.T == "drop" && len(v.A) == 1 {
